@@ -22,4 +22,7 @@ for c in m['checks']:
     assert cov['obligations']>=1 and cov['discharged']==cov['obligations'], (c['property_id'], cov['obligations'], cov['discharged'])
 print('manifest and evidence valid')
 PY
+# all green on /repo itself: refresh the committed baseline copies of the regenerated tables (used only when an
+# extractor fails in a sandbox that has no generated files yet, so that the shared driver still builds)
+if [ $rc = 0 ] && [ -z "${VERIF_REPO:-}" ]; then mkdir -p lean/generated_baseline; for f in lean/P2/Generated/*.lean; do cmp -s $f lean/generated_baseline/$(basename $f) || cp $f lean/generated_baseline/; done; fi
 exit $rc
